@@ -8,6 +8,7 @@ from pyvc.state import State, Exit
 from pyvc.ctx import unit
 from specs.common import *
 from specs.dsl import *
+from specs import native
 
 NL = z3.StringVal("\n")
 def zs(v): return v.z()
@@ -55,12 +56,14 @@ def mk_device(st, shape):
 def h_sock_read(x, recv, args, kwargs, st):
     """assumed contract of the socket file (non-blocking, binary): read(n) returns None (no data yet), b'' (peer closed) or 1..n
     bytes, which are appended to the ghost stream `received`; may raise OSError"""
-    x.raise_if(st, fresh("oserror", z3.BoolSort()), "OSError")
+    oserr = fresh("oserror", z3.BoolSort()); x.ghost["last_oserror"] = oserr
+    x.raise_if(st, oserr, "OSError")
     dev = st.heap[recv.oid]["$dev"]
     c = fresh("chunk", z3.StringSort()); none = fresh("again", z3.BoolSort())
     n = x.as_num(st, args[0])
     x.assume.append(AND(z3.Length(c) <= z3.ToInt(n.val), IMP(none, c == z3.StringVal(""))))
     o = st.heap[dev.oid]
+    x.ghost.setdefault("script", []).append(("read", none, c, x.ghost.pop("last_oserror", F)))
     o["$received"] = VStr(None, z3.Concat(o["$received"].z(), c))
     o["$eof"] = VBool(OR(o["$eof"].t, AND(NOT(none), z3.Length(c) == 0)))
     r = VStr(None, c); r.is_bytes = True
@@ -68,7 +71,8 @@ def h_sock_read(x, recv, args, kwargs, st):
 
 
 def h_select(x, recv, args, kwargs, st):
-    return VBool(fresh("ready", z3.BoolSort()))
+    r = fresh("ready", z3.BoolSort()); x.ghost.setdefault("script", []).append(("select", r))
+    return VBool(r)
 
 
 def install_dev(x):
@@ -94,10 +98,13 @@ def make_while_handler(dev, C0):
             s2 = st.fork()
             items = [] if shape == "empty" else [sstr("Pk"), sstr("Lk")]
             s2.heap[s2.heap[dev.oid]["_read_buffer"].oid] = {"$l": VList(items)}
-            s2.heap[dev.oid]["$received"] = sstr("Rk")
+            rk = sstr("Rk"); s2.heap[dev.oid]["$received"] = rk
+            i0 = len(x.ghost.setdefault("script", []))
             for v in ("chunk", "line"): s2.env.pop(v, None)
             s2.pc = simp(AND(base_pc, loop_inv(s2.heap, dev, C0)))
+            start = s2.snap()
             x.block(node.body, s2)
+            x.ghost.setdefault("segments", []).append((shape, str(rk.term), start, x.ghost["script"][i0:]))
             if not s2.dead:
                 x.ghost["obls"].append((f"loop invariant preserved by an iteration that does not return [{shape}]", s2.pc, loop_inv(s2.heap, dev, C0)))
         n0 = [e for e in x.exits if e.kind in ("break", "continue")]
@@ -117,6 +124,16 @@ def run_dev(ctx, method, shape, with_loop=False):
     exits = ctx.run(x, f"Device.{method}", [dev], {}, st, split_returns=True)
     for name, pc, f in x.ghost["obls"]: ctx.check(name, IMP(pc, f), None, None, "inv")
     covers(ctx, exits)
+    # native replay: from the function entry, or (exits and obligations of the contracted loop) from the loop-head state of that iteration
+    segs = x.ghost.get("segments", [])
+    start_heaps = [(None, h0)] + [(None, sg[2]) for sg in segs]
+    scripts = {0: [ev for ev in x.ghost.get("script", [])][:0]} | {k + 1: sg[3] for k, sg in enumerate(segs)}
+    def seg_of(obl):
+        for k, sg in enumerate(segs):
+            if obl.exit is None and f"[{sg[0]}]" in obl.name and "iteration" in obl.name: return k + 1
+            if obl.exit is not None and sg[1] in obl.exit.cond.sexpr(): return k + 1
+        return 0
+    ctx.replayer = native.device_replayer(method, dev, start_heaps, scripts, seg_of)
     return dev, h0, C0, exits, x
 
 
